@@ -351,13 +351,23 @@ def finish(run, level, rule_owner, behs, trace_lines, viols, coverage, assumptio
     confirmed = []
     in_batch = False
     if new and confirm is not None:
+        t_confirm = time.time()
+        later = []
         for fp, rule, b, line in new[:12]:
             import inspect
+            if confirmed and time.time() - t_confirm > 120:
+                # re-execution is slow on this tree (a server that stopped answering makes every case wait for its timeouts):
+                # one fingerprint has been reproduced, the others are reported as they were observed
+                later.append((fp, rule, b, line))
+                continue
             okc = confirm(b, rule, line) if len(inspect.signature(confirm).parameters) >= 3 else confirm(b, rule)
             if okc:
                 confirmed.append((fp, rule, b, line))
             else:
                 run.notes.append('unreproduced when run alone: %s' % fp)
+        if later:
+            run.notes.append('%d further fingerprints were observed in the same run and not re-executed one by one (time)' % len(later))
+            confirmed += later
         if not confirmed and new:
             again = set()
             if confirm_batch is not None:
